@@ -39,7 +39,7 @@ def job(d):
     own = [own] if isinstance(own, str) else list(own)
     r = run(seed, own)
     caught = any(rc == 1 for rc in r.values()) or any(rc == 1 for (s, c), rc in done.items() if s == seed)
-    if not caught:
+    if not caught and not os.environ.get("MATRIX_OWN_ONLY"):
         run(seed, [c for c in ALL if c not in own])
     return seed
 
